@@ -353,11 +353,16 @@ func ruleC08Commit(c *Ctx) {
 	fn := c.Anchor(rule, fRep+"createDisk")
 	if fn != nil {
 		R := NewRenderer(fn)
-		nh := "+" + fRep + "createNewHead($0,$0.info.Head,var(string#1),$3)#2 -nil ==0"
-		lk := "+" + fRep + "linkDisk($0,$0.info.Head,var(string#1)) -nil ==0"
-		sm := "+" + fRep + `encodeToFile($0,$0.diskData[var(string#1)],(var(string#1) + ".meta")) -nil ==0`
+		// the snapshot's name: whatever createNewHead is given as the new head's parent
+		snap := "var(string#1)"
+		if nhc := CallsTo(fn, fRep+"createNewHead"); len(nhc) == 1 {
+			snap = R.V(nhc[0].(*ssa.Call).Call.Args[2])
+		}
+		nh := "+" + fRep + "createNewHead($0,$0.info.Head," + snap + ",$3)#2 -nil ==0"
+		lk := "+" + fRep + "linkDisk($0,$0.info.Head," + snap + ") -nil ==0"
+		sm := "+" + fRep + `encodeToFile($0,$0.diskData[` + snap + `],(` + snap + ` + ".meta")) -nil ==0`
 		vm := "+" + fRep + `encodeToFile($0,&var(replica.Info),"volume.meta") -nil ==0`
-		noSnap := `+"" -var(string#1) ==0`
+		noSnap := `+"" -` + snap + ` ==0`
 		c.Guard(rule, fn, CallsTo(fn, fRep+"linkDisk"), "linkDisk", nil, atom("new head created", nh))
 		var encSnap, encVol []ssa.Instruction
 		for _, e := range CallsTo(fn, fRep+"encodeToFile") {
@@ -397,9 +402,8 @@ func ruleC08Commit(c *Ctx) {
 		for _, cl := range Closures(fn) {
 			CR := NewRenderer(cl)
 			for _, rm := range CallsTo(cl, fRep+"rmDisk") {
-				s := callRender(CR, rm)
 				switch {
-				case strings.Contains(s, "^var(string#0)") || strings.Contains(s, "info.Head"):
+				case capturedHolds(fn, cl, rm.(*ssa.Call).Call.Args[1], "$0.info.Head") || strings.HasSuffix(CR.V(rm.(*ssa.Call).Call.Args[1]), "$0.info.Head"):
 					c.Guard(rule, cl, []ssa.Instruction{rm}, "cleanup removes old head", nil, atom("only after the commit (done)", "^var(bool)"))
 				default:
 					c.Guard(rule, cl, []ssa.Instruction{rm}, "cleanup removes new files", nil, atom("only when the commit did not happen (!done)", "!^var(bool)"))
@@ -854,4 +858,32 @@ func ruleC08Order(rule string) ruleFn {
 		}
 		c.Floor(rule, 8)
 	}
+}
+
+// capturedHolds: v (inside closure cl of parent) is a load of a captured variable all of whose
+// assignments in the parent store the given term.
+func capturedHolds(parent, cl *ssa.Function, v ssa.Value, term string) bool {
+	u, ok := v.(*ssa.UnOp)
+	if !ok {
+		return false
+	}
+	fv, ok := u.X.(*ssa.FreeVar)
+	if !ok {
+		return false
+	}
+	al := freeVarAlloc(cl, fv)
+	if al == nil {
+		return false
+	}
+	R := NewRenderer(parent)
+	n, all := 0, true
+	eachInstr(parent, func(in ssa.Instruction) {
+		if s, ok := in.(*ssa.Store); ok && s.Addr == ssa.Value(al) {
+			n++
+			if R.V(s.Val) != term {
+				all = false
+			}
+		}
+	})
+	return n > 0 && all
 }
